@@ -16,12 +16,12 @@ func init() {
 	serve("C07", "B6", "B6m", "G5", "G6", "G6r", "B2", "B3", "T8", "W9", "W10", "U1", "T1", "T2", "T3", "T6", "T9", "T10", "T11", "T13", "F1", "F2", "F3", "F4", "B1", "B3b", "B4", "V9", "B8", "T14", "U4", "F5")
 	serve("C08", "G4", "G8", "G12", "G18", "G19", "G6", "R4", "B6", "B6m", "G27", "G16", "G33", "G34", "S2", "S3", "S4", "S9", "S10", "T1", "T2", "T3", "S12", "P16")
 	serve("C09", "L1", "L2", "L8", "P3", "P3c", "P8", "L6", "S4", "G7", "G7r", "G16", "P12", "L11", "G12", "P16", "P17", "P19")
-	serve("C10", "P3", "P3w", "P4", "P5", "P7", "L1", "L8", "G15", "G16", "G21", "P12", "G9", "P1", "P2", "P17", "P18", "P19")
+	serve("C10", "P3", "P3w", "P4", "P5", "P7", "L1", "L8", "G15", "G16", "G21", "P12", "G9", "P1", "P2", "P17", "P18", "P19", "L13")
 	serve("C11", "R1", "R2", "R3", "R4", "P1", "P2", "G17", "P11", "W5", "P8", "R5", "P7", "W13", "W14", "P16")
 	serve("C12", "S2", "S3", "S4", "S6", "S7", "S8", "V3", "G16", "S9", "S10", "S12")
 	serve("C13", "S1", "S5", "S7", "S4", "S11", "P16")
 	serve("C14", "L4", "L1", "L5", "L8", "G6", "G6r", "V1", "V7", "V8", "L10", "L11", "L12", "U2")
-	serve("C15", "L1", "L8", "L9", "G3", "G13", "L7", "G22", "G23", "R4", "G31")
+	serve("C15", "L1", "L8", "L9", "G3", "G13", "L7", "G22", "G23", "R4", "G31", "G38")
 	serve("C16", "G1", "G1b", "G9", "G10", "G10b", "R4", "G25", "G26", "G3", "G13", "G22", "G23", "G35", "P18")
 	serve("C17", "P1", "L2", "L3", "G11", "G20", "G24", "L12", "G3", "G13", "G22", "G23")
 	serve("C18", "L1", "L2", "L6", "L8", "P2", "R4", "G10", "G14", "G17", "L10", "G25", "G29", "G30", "G3", "G13", "G22", "G23", "G37")
